@@ -1,4 +1,5 @@
 import Capella.Lemmas.CoupledList
+import Capella.Lemmas.CoupledAssign
 import Capella.Gen.Descr
 
 /-!
@@ -40,6 +41,15 @@ theorem containment_delete_refines_list (kids : List Child) (x : Nat) :
     view (deleteChild kids x) = (view kids).filter (· ≠ x) ∧
     others (deleteChild kids x) = (others kids).filter (· ≠ x) :=
   ⟨deleteChild_view' kids x, deleteChild_others' kids x⟩
+
+/-- Item assignment and whole-list assignment on a containment list (the repaired `__set__`: drop
+the members that are not kept, then move every new member into place): the view becomes exactly the
+assigned sequence — any length, any mix of kept members, moved-in objects and reorderings — and no
+other child of the owner is touched. -/
+theorem containment_assign_refines_list (kids : List Child) (new : List Nat)
+    (hn : (kids.map (·.1)).Nodup) (hnew : new.Nodup) (hfree : ∀ x ∈ new, x ∉ others kids) :
+    view (assign kids new) = new ∧ others (assign kids new) = others kids :=
+  assign_spec' kids new hn hnew hfree
 
 /-- Link-element lists (LinkAccessor): an accepted insertion at any integer index is `list.insert`. -/
 theorem link_insert_refines_list (targets : List Nat) (hn : targets.Nodup) (u : Bool) (i : Int)
@@ -85,6 +95,8 @@ theorem every_list_relation_covered :
 example : view (insertChild [(1, true), (7, false), (2, true), (8, false)] (-1) 9) = [1, 9, 2] := by decide
 example : view (insertChild [(1, true), (7, false), (2, true), (8, false)] (-7) 9) = [9, 1, 2] := by decide
 example : view (insertChild [(1, true), (7, false), (2, true), (8, false)] 5 9) = [1, 2, 9] := by decide
+example : view (assign [(1, true), (7, false), (2, true), (3, true), (8, false)] [3, 9, 1]) = [3, 9, 1] := by decide
+example : others (assign [(1, true), (7, false), (2, true), (3, true), (8, false)] [3, 9, 1]) = [7, 8] := by decide
 example : (Capella.Gen.Descr.table.filter (fun r => r.writable && r.aslist)).length > 100 := by decide +kernel
 
 end Capella.Props.C08
